@@ -327,7 +327,7 @@ func c20Misc(r *Run) {
 			r.violate(key, "policy %q does not parse back to itself: %v", s, err)
 		}
 		// the model renders the policy and re-parses mutated strings (specifiers that print unquoted only)
-		if !strings.ContainsAny(s, "\"\\") {
+		if !strings.ContainsAny(s, "\"\\") && len(s) < 1500 {
 			var ks, hs [][]byte
 			r.emit(true, "policy-render", "c20.pol_render", policyToks(p, &ks, &hs), []string{"0", hb([]byte(s))})
 			muts := []string{s, " " + s + " ", strings.ReplaceAll(s, "(", " ( "), strings.ReplaceAll(s, ",", " ,\t"), s + ")", s[:len(s)-1], strings.Replace(s, "(", "((", 1),
